@@ -358,7 +358,12 @@ def copies_one_by_one(run, thorough, seed, ctx, ncopyable):
 USER_DEFS = ["verifa 3 m", "verifb 2 verifa", "verifq- 1000", "verifc verifqverifb / 7", "verifd verifc verifa",
              "verife 1|3 verifd s", "verifr ? length^7 / time^3", "veriff verifqverifa^2 / verife"]
 CLI_QUERIES = ["verifa", "1 verifb -> m", "1 verifc -> m", "1 verifd -> m^2", "1 verife -> m^2 s", "1 veriff -> 1/s",
-               "1 verifqverifd -> verifd", "verifr", "3 verifbs + 1 verifa -> m"]
+               "1 verifqverifd -> verifd", "verifr", "3 verifbs + 1 verifa -> m",
+               # definitions (with their documentation) and category listings: what a leak across a file boundary would change
+               "verifb", "verifc", "verifd", "verife", "veriff", "units for m^2 s", "units for verifa"]
+# how a user file may END: nothing after the last definition changes what the file defines
+FILE_ENDINGS = {"tidy": "\n", "no-final-newline": "", "blank-lines": "\n\n\n", "open-category": "\n!category verifcat \"Verif Cat\"\n",
+                "dangling-doc": "\n?? dangling documentation\n", "comment": "\n# the end", "open-category-no-newline": "\n!category verifcat \"Verif Cat\""}
 
 
 def leg_cli(run, thorough, seed):
@@ -389,10 +394,12 @@ def leg_cli(run, thorough, seed):
         there = [USER_DEFS[i] for i in range(n) if not mask >> i & 1]
         rng.shuffle(here)
         rng.shuffle(there)
+        # the two plain splits end tidily; every other split draws an ending for each file
+        e1, e2 = ("tidy", "tidy") if mask in (0, 2 ** n - 1) else (rng.choice(sorted(FILE_ENDINGS)), rng.choice(sorted(FILE_ENDINGS)))
         if here:
-            open(os.path.join(cwd, "definitions.units"), "w").write("\n".join(here) + "\n")
+            open(os.path.join(cwd, "definitions.units"), "w").write("\n".join(here) + FILE_ENDINGS[e1])
         if there:
-            open(os.path.join(cfg, "definitions.units"), "w").write("\n".join(there) + "\n")
+            open(os.path.join(cfg, "definitions.units"), "w").write("\n".join(there) + FILE_ENDINGS[e2])
         open(os.path.join(cfg, "config.toml"), "w").write("[currency]\nenabled = false\n")
         env = vlib.child_env({"XDG_CONFIG_HOME": os.path.join(d, "cfg"), "XDG_CACHE_HOME": os.path.join(d, "cache"),
                               "XDG_DATA_HOME": os.path.join(d, "data"), "HOME": d})
@@ -405,7 +412,7 @@ def leg_cli(run, thorough, seed):
         run.count()
         run.nontrivial("cli:%d" % mask)
         events.append({"ev": "loads", "set": "cli-user-files", "loads": 1, "digest": dg})
-        results.append((mask, here, there, outs))
+        results.append((mask, here + ["<ending: %s>" % e1], there + ["<ending: %s>" % e2], outs))
     # the reference is the answer most splits give; it must be a real answer (the definitions are valid)
     import collections
     cnt = collections.Counter("\n".join(o) for _, _, _, o in results)
